@@ -618,9 +618,9 @@ def ctor_space(tier: str, rng: random.Random):
             for chk in (True, False):
                 full.append((md, None, c, chk))
     # timestamps: every timestamp kind against a sample of the above
-    sample = rng.sample(full, min(len(full), 600 if tier == "quick" else 4000))
+    sample = rng.sample(full, min(len(full), 300 if tier == "quick" else 4000))
     timed = [(md, ts, c, chk) for (md, _, c, chk) in sample for ts in tss[1:]]
-    limit = 6000 if tier == "quick" else 10 ** 9
+    limit = 3000 if tier == "quick" else 10 ** 9
     if len(full) > limit:
         # keep every (metadata, check) x shape class at least once, sample the rest
         full = rng.sample(full, limit)
@@ -776,13 +776,20 @@ def is_nontrivial(ctx) -> bool:
 
 
 def main(tier: str) -> int:
+    import time as _t
     run = C.Run(PID, tier)
+    phase = {}
+    t_ph = [_t.time()]
+
+    def mark(name):
+        now = _t.time(); phase[name] = round(now - t_ph[0], 2); t_ph[0] = now
     proofs_ok = run.check_proofs(TARGETS, extra_tb=[
         "Python object identity / isinstance abstracted: listeners and event types are numbered objects, payload values are "
         "represented by their exact class in a 10-class lattice (object, int, bool<=int, float, str, NoneType, list, dict, Base, Derived<=Base)",
         "listener behaviour = a finite queue of scripts (the k-th notification performs the k-th script); exceptions raised in "
         "notify propagate (no try/except in listeners); single-threaded use of one producer",
     ])
+    mark("build_and_props_recheck")
     C.use_repo_sources()
     try:
         import pydsol.core.pubsub  # noqa
@@ -837,6 +844,7 @@ def main(tier: str) -> int:
             first_bad = (case, findings)
         done.append((case, trace))
 
+    mark("op_sequences_on_impl")
     # ---- constructor space
     ctor_in = ctor_space(tier, rng)
     try:
@@ -852,6 +860,7 @@ def main(tier: str) -> int:
         if acc is not exp and ctor_bad is None:
             ctor_bad = (inp, acc, exp)
 
+    mark("constructor_space_on_impl")
     # ---- EventType constructions (defining sites, names, metadata declarations) + events against them
     me = sys.modules[__name__]
     n_t = 1200 if tier == "quick" else 20000
@@ -873,6 +882,7 @@ def main(tier: str) -> int:
             t_bad = (tc, f)
         tdone.append((tc, tobs, eobs))
 
+    mark("event_type_cases_on_impl")
     run.cov["evaluations"] = len(done) + len(ctor_in) + len(tdone)
     run.cov["distinct_nontrivial"] = len(nontrivial)
     run.cov["rule"] = (f"{n_random} random + {n_mal} malformed-stream op sequences over {N_ET} event types x {N_LIS} listeners with scripted "
@@ -944,7 +954,7 @@ def main(tier: str) -> int:
     for s in range(0, len(done), shard):
         f = d / f"cases_c08_{s // shard}.v"
         emit_cases(f, done[s:s + shard]); files.append(f); kinds.append(("seq", s))
-    cshard = 2500
+    cshard = 600
     ctor_pairs = list(zip(ctor_in, ctor_out))
     for s in range(0, len(ctor_pairs), cshard):
         f = d / f"cases_c08_ctor_{s // cshard}.v"
@@ -953,7 +963,10 @@ def main(tier: str) -> int:
     for s_ in range(0, len(tdone), tshard):
         f = d / f"cases_c08_et_{s_ // tshard}.v"
         ET.emit_tcases(f, tdone[s_:s_ + tshard], me); files.append(f); kinds.append(("type", s_))
+    mark("oracle_and_emit")
     results = C.coqc_many(files)
+    mark("model_in_coqc")
+    run.cov["phase_wall_s"] = phase
     mism_seq, mism_ctor, mism_type = [], [], []
     for (kind, base), f, (rc, out) in zip(kinds, files, results):
         lst = C.parse_nat_list(out)
